@@ -163,7 +163,7 @@ def check_case(acc, case):
     fam = case["fam"]
     key = {"fam": fam}
     try:
-        with core.case_timer():
+        with core.case_timer(case.get("timeout", core.CASE_TIMEOUT_S)):
             if fam == "data":
                 check_data(acc, case, key)
                 return
@@ -438,9 +438,10 @@ def data_cases(tier, seed):
 
 def long_cases(tier):
     # very long single cases (block boundaries of a chunked implementation fall inside the data)
-    for n in (700,) if tier == "quick" else (700, 3000):
+    for n in (700,) if tier == "quick" else (700, 1600):
         for score, msl, M, g, ts in (("L2cost", 3, 40, 1.5, 0.5), ("L2", 5, 60, 2.0, 1.0)):
-            yield {"fam": "data", "x": util.very_long_series(n, 37), "score": score, "msl": msl, "M": M, "growth": g, "thr_scale": ts}
+            yield {"fam": "data", "x": util.very_long_series(n, 37), "score": score, "msl": msl, "M": M, "growth": g, "thr_scale": ts,
+                   "timeout": 900}
     for n in (12, 16) if tier == "quick" else (12, 16, 20, 24):
         for msl, M, g in ((1, 8, 1.5), (4, n, 1.5), (5, 12, 2.0), (2, 10, 1.25)):
             if n < 2 * msl or M < 2 * msl:
